@@ -448,12 +448,28 @@ def hull_jobs(repo):
              params="(sqd : Pt → Pt → Rat) (head q r : Pt)", ret="Ordering", paths=ORD_PATHS,
              funcs=dict(CMP_FUNCS, **{"T::Ker::orient2d": "Geo.orient", "T::Ker::square_euclidean_distance": "(sqd {0} {1})"}),
              opts={"accessors": {"unwrap": "(Gen.unwrap {})"}}),
+        # `Iterator::min_by` = Gen.minBy? (the first of the minimal elements, as std documents and implements it);
+        # `iter().enumerate()` = (index, element) pairs; `.unwrap().0`: the index (`Gen.unwrap`: the empty slice is not modelled)
+        dict(file=UTILS, hdr=r"pub fn least_index<T: CoordNum>\(pts: &\[Coord<T>\]\) -> usize \{", name="leastIndex", params="(pts : List Pt)",
+             ret="Nat", funcs={".min_by": "(Gen.minBy? {1} {0})", "lex_cmp": "lexCmp"},
+             opts={"accessors": {"iter": "{}", "enumerate": "(Gen.enumerate {})", "unwrap": "(Gen.unwrap {})"}}),
+        # the body of `for pt in points.iter()` in `graham_hull`, as a function of the stack `output` (a Vec, top = last
+        # element): the `while output.len() > 1` loop with its `break`s, then the conditional push. Every iteration that
+        # does not break pops, so `output.len()` bounds the number of iterations (`while_fuel`; `none` = bound exhausted,
+        # proved impossible by the tie theorem). `output[len - k]` = total indexing under the loop condition `len > 1`;
+        # `Vec::pop` = dropLast, `last()` = getLast?
+        dict(file=GRAHAM, hdr=r"for pt in points\.iter\(\) \{", name="grahamLoopBody",
+             params="(include_on_hull : Bool) (output0 : List Pt) (pt : Pt)", ret="Option (List Pt)", paths=ORD_PATHS,
+             funcs={"T::Ker::orient2d": "Geo.orient"}, pro="  let output := output0\n",
+             opts={"muts": [("output", "List Pt")], "ret_ctor": "id", "option_wrap": True, "while_fuel": "output.length",
+                   "unguarded_index": "total", "mut_methods": {"pop": "{0}.dropLast"},
+                   "accessors": {"len": "{}.length", "last": "{}.getLast?", "unwrap": "(Gen.unwrap {})"}}),
     ]
 
 
 def hull_functions(repo, outdir, write):
     hdr = ["/- generated by translator/rs2lean.py (jobs2) from %s and %s; do not edit -/" % (GRAHAM, UTILS),
-           "import GeoModel.Hull", "import GeoModel.TRANPrelude", "", "namespace Geo.Gen", "open Geo",
+           "import GeoModel.Hull", "import GeoModel.TRANPrelude", "import GeoModel.TRAN2Prelude", "", "namespace Geo.Gen", "open Geo",
            "set_option linter.unusedVariables false", ""]
     return emit(repo, outdir, "HullGen.lean", hdr, hull_jobs(repo), write)
 
